@@ -11,6 +11,14 @@ def plan_roundtrip(pid, rng, quick):
     plan = []
     for i in range(n):
         plan.append(otap.rand_stream(rng, "rt/%s/%d" % (signal, i), signal, [pid]))
+    # the corners of the ordering-option lattice (everything unordered / everything on its last variant), rich batches
+    for i in range(4 if quick else 60):
+        k = [0, -1][i % 2]
+        o = {"hasOrder": True, "orderSpan": otap.ORDER_SPAN[k], "attrs16": otap.ATTRS16[k], "attrs32": otap.ATTRS32[k], "zstd": i % 4 < 2}
+        st = otap.rand_stream(rng, "rt-corner/%s/%d" % (signal, i), signal, [pid], opts=o, nb=3, size="medium")
+        for b in st["batches"]:
+            b["rich"] = 2
+        plan.append(st)
     # long streams: dictionary and schema state carried across many batches
     for i in range(6 if quick else 300):
         plan.append(otap.rand_stream(rng, "rt-long/%s/%d" % (signal, i), signal, [pid], nb=rng.choice([10, 15, 20])))
